@@ -70,7 +70,12 @@ Inductive case :=
 | CKMap (kk : kkind) (init : list (Z * Z)) (ops : list kop) (o : list ob)
 (* Go calls a JavaScript function passed for a func parameter: what the callback
    saw as arguments, and what Go received (CV result) or the error class at the bridged call *)
-| CCallback (nparams : Z) (rt : cbty) (r : cbret) (seen : list Z) (o : cres).
+| CCallback (nparams : Z) (rt : cbty) (r : cbret) (seen : list Z) (o : cres)
+(* history on a bridged value of a named map type with methods *)
+| CNMap (methods : list Z) (len_id : Z) (init : list (Z * Z)) (ops : list nop) (o : list ob)
+(* delete c[i] on a bridged []T (cont 0), *[N]T (1), [N]T by value (2) whose element was [old]:
+   the result of delete, the Go-side element afterwards, what the script reads at that index afterwards *)
+| CDelElem (cont : Z) (t : gty) (inrange : bool) (old : gv) (res : Z) (after : gv) (js : jobs).
 
 (* what a script reads from a bridged numeric element: the double nearest to it *)
 Definition js_read (o : outcome) : option dclass :=
@@ -135,6 +140,10 @@ Definition map_class (ops : list mop) (m i : list ob) : Z :=
   | _ => 2
   end.
 Definition in_list (l : list Z) (x : Z) : bool := existsb (Z.eqb x) l.
+
+(* what a script reads from a container element: pointers are followed *)
+Fixpoint js_of_elem (g : gv) : jobs :=
+  match g with GVPtr g' => js_of_elem g' | _ => ret_one_h g end.
 
 Definition verdict (c : case) : Z * Z :=
   match c with
@@ -207,6 +216,14 @@ Definition verdict (c : case) : Z * Z :=
       let e := named_seen g in
       judge (fun a b => jobs_eqb (fst (fst a)) (fst (fst b)) && gv_eqb (snd (fst a)) (snd (fst b)) && cres_eqb (snd a) (snd b))
             (js, exported, back) e e 0
+  | CNMap methods len_id init ops o =>
+      judge obs_eqb o (nrun false methods len_id init ops) (nrun true methods len_id init ops) 22
+  | CDelElem cont t inrange old res after js =>
+      let e := if cont =? 2 then (0, old, if inrange then js_of_elem old else JoUndef)
+               else if inrange then (1, zero 3 t, js_of_elem (zero 3 t))
+               else (0, old, JoUndef) in
+      judge (fun a b => (fst (fst a) =? fst (fst b)) && gv_eqb (snd (fst a)) (snd (fst b)) && jobs_eqb (snd a) (snd b))
+            (res, after, js) e e 0
   | CKMap kk init ops o => judge obs_eqb o (krun false kk init ops) (krun true kk init ops) 17
   | CCallback nparams rt r seen o =>
       match cb_call false false rt r with
